@@ -32,31 +32,56 @@ FAMILY_GAP = 0.15
 def floors(tier):
     f = {"family_kernels": 5355, "family_len4": 2401, "family_2cycle": 2555, "evaluations": 5355 + (300 if tier == "quick" else 4000),
          "distinct_nontrivial": 1500, "rand:synth": 200 if tier == "quick" else 3000, "rand:shipped": 60 if tier == "quick" else 1000,
-         "check_a": 5600, "check_b": 5600}
+         "check_a": 5600, "check_b": 5600, "familyB_kernels": 4305, "familyC_kernels": 7239, "familyD_kernels": 6912}
     return f
 
 
-def family_kernels():
+def family_kernels(fam="A"):
+    """Forms (lists of micro-ops [cycles, port string]) and kernels (tuples of form indices) of a bounded family.
+
+    A: the family of the statement - 3 ports, one single-micro-op form per non-empty port subset with 1 and 2 cycles, every
+       ordered kernel of length <= 4 (<= 3 with 2-cycle forms): 5355 kernels.
+    B: 4 ports, single-micro-op forms as in A, every ordered kernel of length <= 3 (length 3 with 1-cycle forms only): 4305.
+    D: 4 ports, forms of B, kernels of length 4 made of three 2-cycle single-port forms and one arbitrary form: 6912.
+    C: 3 ports, 1-cycle single-micro-op forms plus every two-micro-op form on two disjoint port sets (both orders of the
+       micro-ops), every ordered kernel of length <= 3: 7239."""
+    ports = "0123" if fam in ("B", "D") else "012"
     subsets = []
-    for k in (1, 2, 3):
-        subsets += list(itertools.combinations("012", k))
-    forms = [(c, s) for c in (1, 2) for s in subsets]
+    for k in range(1, len(ports) + 1):
+        subsets += ["".join(c) for c in itertools.combinations(ports, k)]
+    if fam == "C":
+        forms = [[[1, s]] for s in subsets]
+        forms += [[[1, s1], [1, s2]] for s1 in subsets for s2 in subsets if not set(s1) & set(s2)]
+    else:
+        forms = [[[c, s]] for c in (1, 2) for s in subsets]
+    if fam == "D":
+        # 4 ports as in B; kernels of length 4: three 2-cycle single-port forms (they saturate up to three ports) and one
+        # arbitrary form, in every position
+        forms = [[[c, s]] for c in (1, 2) for s in subsets]
+        heavy = [i for i, f in enumerate(forms) if f[0][0] == 2 and len(f[0][1]) == 1]
+        seen = set()
+        for trio in itertools.product(heavy, repeat=3):
+            for x in range(len(forms)):
+                for pos in range(4):
+                    seen.add(trio[:pos] + (x,) + trio[pos:])
+        return forms, sorted(seen), list(ports)
     out = []
-    for n in (1, 2, 3, 4):
+    for n in ((1, 2, 3, 4) if fam == "A" else (1, 2, 3)):
         for combo in itertools.product(range(len(forms)), repeat=n):
-            two = any(forms[i][0] == 2 for i in combo)
-            if n == 4 and two:
+            two = any(forms[i][0][0] == 2 for i in combo)
+            if n == (4 if fam == "A" else 3) and two:
                 continue
             out.append(combo)
-    return forms, out
+    return forms, out, list(ports)
 
 
-def family_model():
-    m = gen_model.base_model("x86", ["0", "1", "2"])
-    forms, _ = family_kernels()
-    for i, (c, s) in enumerate(forms):
-        m["instruction_forms"].append({"name": "fam%da" % i, "operands": gen_model.x86_reg_ops(2), "throughput": c / len(s), "latency": 1,
-                                       "port_pressure": [[c, "".join(s)]], "uops": 1})
+def family_model(fam="A"):
+    forms, _, ports = family_kernels(fam)
+    m = gen_model.base_model("x86", ports)
+    for i, uops in enumerate(forms):
+        m["instruction_forms"].append({"name": "fam%da" % i, "operands": gen_model.x86_reg_ops(2),
+                                       "throughput": max(c / len(s) for c, s in uops), "latency": 1,
+                                       "port_pressure": [[c, s] for c, s in uops], "uops": len(uops)})
     return m, forms
 
 
@@ -65,6 +90,10 @@ def plan(tier, seed):
     nfam = 12
     for i in range(nfam):
         specs.append({"kind": "family", "part": i, "parts": nfam})
+    # two more bounded families, enumerated completely as well (a fourth port; two micro-ops on disjoint port sets)
+    for fam in ("B", "C", "D"):
+        for i in range(nfam):
+            specs.append({"kind": "family", "part": i, "parts": nfam, "fam": fam})
     if tier == "quick":
         for i in range(6):
             specs.append({"kind": "synth", "models": 14, "kernels": 4})
@@ -131,9 +160,11 @@ def run_family(spec, R, mon):
     *reported* bottleneck: the family model is placed as csx.yml in a private data directory that is searched first."""
     import osaca.utils as utils
 
-    m, forms = family_model()
+    fam = spec.get("fam", "A")
+    tag = "family" if fam == "A" else "family" + fam
+    m, forms = family_model(fam)
     m["arch_code"] = "CSX"
-    _, kernels = family_kernels()
+    _, kernels, fports = family_kernels(fam)
     text = gen_model.model_yaml(m)
     with gen_model.ScratchDir("c02") as d:
         with open(os.path.join(d, "csx.yml"), "w") as f:
@@ -146,7 +177,7 @@ def run_family(spec, R, mon):
                 if idx % spec["parts"] != spec["part"]:
                     continue
                 ktext = "".join("fam%da %%r%d, %%r%d\n" % (i, 8 + j, 12 + (j % 4)) for j, i in enumerate(combo))
-                case = {"kind": "family", "combo": list(combo)}
+                case = {"kind": "family", "fam": fam, "combo": list(combo)}
                 with open(kfile, "w") as f:
                     f.write(ktext)
                 mon.take()
@@ -163,16 +194,16 @@ def run_family(spec, R, mon):
                     continue
                 R.count("family_cli_passes:%d" % (len(ev) - 1))
                 evs = {"uniform": ev[0], "once": ev[1], "twice": ev[-1]}
-                expected = [[ref_sched.norm_uops([[forms[i][0], "".join(forms[i][1])]])] for i in combo]
-                nt = judge(["0", "1", "2"], evs, expected, None, R, case, family=True)
-                R.case(digest(["family", combo]), nontrivial=nt)
-                R.count("family_kernels")
+                expected = [[ref_sched.norm_uops([[c, sx] for c, sx in forms[i]])] for i in combo]
+                nt = judge(fports, evs, expected, None, R, case, family=True)
+                R.case(digest([tag, combo]), nontrivial=nt)
+                R.count(tag + "_kernels")
                 if len(combo) == 4:
                     R.count("family_len4")
-                if any(forms[i][0] == 2 for i in combo):
+                if fam == "A" and any(forms[i][0][0] == 2 for i in combo):
                     R.count("family_2cycle")
                 if idx % 997 == 0:
-                    R.sample({"kind": "family", "kernel": [[forms[i][0], "".join(forms[i][1])] for i in combo],
+                    R.sample({"kind": tag, "kernel": [forms[i] for i in combo],
                               "uniform": bottleneck(evs["uniform"]), "reported": bottleneck(evs["twice"]),
                               "optimum": ref_sched.optimum_with_alternatives(summed_choices(evs, expected))}, limit=3)
         finally:
@@ -275,9 +306,9 @@ def replay(case, R):
     try:
         with gen_model.ScratchDir("c02r") as d:
             if case["kind"] == "family":
-                _, kernels = family_kernels()
+                _, kernels, _ = family_kernels(case.get("fam", "A"))
                 idx = kernels.index(tuple(case["combo"]))
-                run_family({"parts": len(kernels), "part": idx}, R, mon)
+                run_family({"parts": len(kernels), "part": idx, "fam": case.get("fam", "A")}, R, mon)
                 return
             elif case["kind"] == "synth":
                 mrng = random.Random(case["model_seed"])
